@@ -375,7 +375,14 @@ build_perm(tsk_table_collection_t *t, const int *mperm, int dfirst, int eswap, i
         tag = (char) ('P' + (pswap ? 1 - j : j));
         tsk_population_table_add_row(&t->populations, &tag, 1);
         tag = (char) ('I' + (iswap ? 1 - j : j));
-        tsk_individual_table_add_row(&t->individuals, 0, NULL, 0, NULL, 0, &tag, 1);
+        {
+            /* pedigree: logical individual I (of node a) is the child of logical individual J (of node b); with the
+             * rows in logical order the child precedes its parent, so canonicalise has to reorder the individuals */
+            int logical = iswap ? 1 - j : j;
+            tsk_id_t par[1];
+            par[0] = iswap ? 0 : 1; /* row of logical J */
+            tsk_individual_table_add_row(&t->individuals, 0, NULL, 0, par, logical == 0 ? 1 : 0, &tag, 1);
+        }
         tag = (char) ('S' + (sswap ? 1 - j : j));
         tsk_site_table_add_row(&t->sites, (sswap ? 1 - j : j) == 0 ? p0 : p1, "A", 1, &tag, 1);
     }
@@ -432,6 +439,9 @@ main_c07(void)
         k = t.mutations.parent[j];
         sym_assert(k < j, "canonical mutation order lists parents before children");
     }
+    sym_assert(tsk_table_collection_check_integrity(&t, TSK_CHECK_INDIVIDUAL_ORDERING) == 0,
+        "canonical individuals list parents before children");
+    sym_assert(t.individuals.num_rows == 2 && t.individuals.parents_length == 1, "the pedigree link survives");
     ret = tsk_treeseq_init(&ts, &t, TSK_TS_INIT_BUILD_INDEXES);
     sym_assert(ret == 0, "the canonical tables load as a tree sequence");
     tsk_treeseq_free(&ts);
